@@ -109,6 +109,11 @@ func (C02) Run(tp *tape.Tape) core.Result {
 			goto done
 		}
 	}
+	// a generator whose bound and step are global variables: a loop body (or anything else that
+	// runs between two resumptions) may change them, and the generator must see the change
+	if step("gqa = 3") || step("gqb = 1") || step("gng = (n) -> {\ni = 0\nwhile i < gqa {\nwrite(\"Y\" + toa(i) + \";\")\nyield i + n\nwrite(\"R\" + toa(gqa) + \",\" + toa(gqb) + \";\")\ni = i + gqb\n}\n}") {
+		goto done
+	}
 	{
 		top := g.TopScope(sw.TopRet)
 		for i := 0; i < sw.NStmts; i++ {
@@ -153,6 +158,21 @@ func (C02) Run(tp *tape.Tape) core.Result {
 				}
 				r.Inc("F8.loop_function_under_padding", 1)
 				if step(inner) {
+					goto done
+				}
+				continue
+			case k == 2: // the body changes globals the running generator reads after it is resumed
+				lim := 1 + tp.Draw(3)
+				body := fmt.Sprintf("write(\"B\" + toa(qg) + \";\")\nif qg < %d {\ngqa = gqa + 1\n}", lim)
+				if tp.Bool() {
+					body += fmt.Sprintf("\nif qg == %d {\ngqb = gqb + 1\n}", tp.Draw(3))
+				}
+				v := "for qg <- gng(" + fmt.Sprint(tp.Draw(3)) + ") {\n" + body + "\n}"
+				if tp.Bool() { // the same inside a function: globals are still shared, locals are not
+					v = "{\nfq = () -> {\ns = 0\nfor qg <- gng(0) {\ns = s + qg\nwrite(\"B\" + toa(qg) + \";\")\n}\ns\n}\nfq()\n}"
+				}
+				r.Inc("F4.body_changes_globals_read_by_running_generator", 1)
+				if step(v) || step("gqa = 3") || step("gqb = 1") {
 					goto done
 				}
 				continue
